@@ -121,12 +121,16 @@ class Codec:
         header = []
         msg_type = "%s=%s" % (FTag.MsgType, msg_type)
         header.append("%s=%s" % (FTag.BeginString, self.protocol.beginstring))
-        header.append("%s=%i" % (FTag.BodyLength, len(body) + len(msg_type) + 1))
+        # BodyLength / CheckSum are counted in bytes as sent on the wire (utf-8)
+        header.append(
+            "%s=%i"
+            % (FTag.BodyLength, len((body + msg_type).encode("utf-8")) + 1)
+        )
         header.append(msg_type)
 
         fixmsg = self.SOH.join(header) + self.SOH + body
 
-        cksum = sum([ord(i) for i in fixmsg]) % 256
+        cksum = sum(fixmsg.encode("utf-8")) % 256
         fixmsg = fixmsg + "%s=%0.3i" % (FTag.CheckSum, cksum)
 
         # print len(fixmsg)
@@ -251,6 +255,13 @@ class Codec:
             if not (tag.isascii() and tag.isdigit()):
                 assert silent, f"invalid tag {m}"
                 return (None, parsed_length, None)
+
+            if not value.isascii():
+                # text is sent as utf-8 by the connection (fallback: single-byte text)
+                try:
+                    value = value.encode("latin-1").decode("utf-8")
+                except UnicodeDecodeError:
+                    pass
 
             if tag == FTag.CheckSum:
                 cheksum_base = self.SOH.join(msg[:-1])
